@@ -303,6 +303,13 @@ def check(ctx, rep):
     from rules.props import c05 as _c05
     rep.rule('R02.l', 'every way of waking a task waker enqueues the task, marks it woken and wakes the parent, on every path', floor=5)
     _c05.check_wake_impls(rep, 'R02.l', core, None)
+    # R02.m: over the serialised bridge the one allowed resolution of a request must be decodable whatever its size: bincode applies a
+    # byte limit when DEcoding only, after the bridge has taken the one-shot entry out of the registry — a large response is rejected, the
+    # request is consumed and the task that asked never hears (a stream loses the item and keeps going). One options value, no limit
+    # (shared with C10 R10.d / C09 R09.g; seeded: `.with_limit(1 MiB)` in Bridge::bincode_options "against corrupt length prefixes")
+    from rules.props import c10 as _c10
+    rep.rule('R02.m', 'the bridge codec has one options value for both directions and no byte limit', floor=5)
+    _c10.check_codec(ctx, rep, rid='R02.m')
     rep.rule('R02.i', 'the arity state of a resolver (typed or serialised) is written only inside its own resolve', floor=2)
     c09.check_entry_writers(rep, 'R02.i', core)
     rep.assume('futures::channel::mpsc::unbounded and crux_core::capability::channel return two halves of one fresh FIFO channel')
